@@ -81,7 +81,7 @@ pub fn sequence_or_set_template(comments: &str, name: &str, members: &str) -> St
 pub fn sequence_or_set_of_template(comments: &str, name: &str, member_type: &str) -> String {
     format!(
         r#"{comments}
-        export type {name} = {member_type}[];"#
+        export type {name} = {member_type};"#
     )
 }
 
